@@ -173,7 +173,7 @@ def root(reference_labels: Lst(ObjT), estimated_labels: Lst(ObjT)) -> Arr(Real, 
                     and all_encodable(reference_labels) and all_encodable(estimated_labels)), props="C14")
     ensures(length(result) == length(reference_labels), label='length', props="C11")
     ensures(forall(0, length(result), lambda i: result[i] == rule_root(ENC(reference_labels[i]), ENC(estimated_labels[i]))),
-            label='rule', props="C11")
+            label='rule', props="C11 C09 C02")
 
 
 @contract("mir_eval.chord.thirds", props="C11 C14")
@@ -184,7 +184,7 @@ def thirds(reference_labels: Lst(ObjT), estimated_labels: Lst(ObjT)) -> Arr(Real
                     and all_encodable(reference_labels) and all_encodable(estimated_labels)), props="C14")
     ensures(length(result) == length(reference_labels), label='length', props="C11")
     ensures(forall(0, length(result), lambda i: result[i] == rule_thirds(ENC(reference_labels[i]), ENC(estimated_labels[i]))),
-            label='rule', props="C11")
+            label='rule', props="C11 C09 C02")
 
 
 @contract("mir_eval.chord.thirds_inv", props="C11 C14")
@@ -195,7 +195,7 @@ def thirds_inv(reference_labels: Lst(ObjT), estimated_labels: Lst(ObjT)) -> Arr(
                     and all_encodable(reference_labels) and all_encodable(estimated_labels)), props="C14")
     ensures(length(result) == length(reference_labels), label='length', props="C11")
     ensures(forall(0, length(result), lambda i: result[i] == rule_thirds_inv(ENC(reference_labels[i]), ENC(estimated_labels[i]))),
-            label='rule', props="C11")
+            label='rule', props="C11 C09 C02")
 
 
 @contract("mir_eval.chord.triads", props="C11 C14")
@@ -206,7 +206,7 @@ def triads(reference_labels: Lst(ObjT), estimated_labels: Lst(ObjT)) -> Arr(Real
                     and all_encodable(reference_labels) and all_encodable(estimated_labels)), props="C14")
     ensures(length(result) == length(reference_labels), label='length', props="C11")
     ensures(forall(0, length(result), lambda i: result[i] == rule_triads(ENC(reference_labels[i]), ENC(estimated_labels[i]))),
-            label='rule', props="C11")
+            label='rule', props="C11 C09 C02")
 
 
 @contract("mir_eval.chord.triads_inv", props="C11 C14")
@@ -217,7 +217,7 @@ def triads_inv(reference_labels: Lst(ObjT), estimated_labels: Lst(ObjT)) -> Arr(
                     and all_encodable(reference_labels) and all_encodable(estimated_labels)), props="C14")
     ensures(length(result) == length(reference_labels), label='length', props="C11")
     ensures(forall(0, length(result), lambda i: result[i] == rule_triads_inv(ENC(reference_labels[i]), ENC(estimated_labels[i]))),
-            label='rule', props="C11")
+            label='rule', props="C11 C09 C02")
 
 
 @contract("mir_eval.chord.tetrads", props="C11 C14")
@@ -228,7 +228,7 @@ def tetrads(reference_labels: Lst(ObjT), estimated_labels: Lst(ObjT)) -> Arr(Rea
                     and all_encodable(reference_labels) and all_encodable(estimated_labels)), props="C14")
     ensures(length(result) == length(reference_labels), label='length', props="C11")
     ensures(forall(0, length(result), lambda i: result[i] == rule_tetrads(ENC(reference_labels[i]), ENC(estimated_labels[i]))),
-            label='rule', props="C11")
+            label='rule', props="C11 C09 C02")
 
 
 @contract("mir_eval.chord.tetrads_inv", props="C11 C14")
@@ -239,7 +239,7 @@ def tetrads_inv(reference_labels: Lst(ObjT), estimated_labels: Lst(ObjT)) -> Arr
                     and all_encodable(reference_labels) and all_encodable(estimated_labels)), props="C14")
     ensures(length(result) == length(reference_labels), label='length', props="C11")
     ensures(forall(0, length(result), lambda i: result[i] == rule_tetrads_inv(ENC(reference_labels[i]), ENC(estimated_labels[i]))),
-            label='rule', props="C11")
+            label='rule', props="C11 C09 C02")
 
 
 @contract("mir_eval.chord.majmin", props="C11 C14")
@@ -250,7 +250,7 @@ def majmin(reference_labels: Lst(ObjT), estimated_labels: Lst(ObjT)) -> Arr(Real
                     and all_encodable(reference_labels) and all_encodable(estimated_labels)), props="C14")
     ensures(length(result) == length(reference_labels), label='length', props="C11")
     ensures(forall(0, length(result), lambda i: result[i] == rule_majmin(ENC(reference_labels[i]), ENC(estimated_labels[i]))),
-            label='rule', props="C11")
+            label='rule', props="C11 C09 C02")
 
 
 @contract("mir_eval.chord.majmin_inv", props="C11 C14")
@@ -261,7 +261,7 @@ def majmin_inv(reference_labels: Lst(ObjT), estimated_labels: Lst(ObjT)) -> Arr(
                     and all_encodable(reference_labels) and all_encodable(estimated_labels)), props="C14")
     ensures(length(result) == length(reference_labels), label='length', props="C11")
     ensures(forall(0, length(result), lambda i: result[i] == rule_majmin_inv(ENC(reference_labels[i]), ENC(estimated_labels[i]))),
-            label='rule', props="C11")
+            label='rule', props="C11 C09 C02")
 
 
 @contract("mir_eval.chord.sevenths", props="C11 C14")
@@ -272,7 +272,7 @@ def sevenths(reference_labels: Lst(ObjT), estimated_labels: Lst(ObjT)) -> Arr(Re
                     and all_encodable(reference_labels) and all_encodable(estimated_labels)), props="C14")
     ensures(length(result) == length(reference_labels), label='length', props="C11")
     ensures(forall(0, length(result), lambda i: result[i] == rule_sevenths(ENC(reference_labels[i]), ENC(estimated_labels[i]))),
-            label='rule', props="C11")
+            label='rule', props="C11 C09 C02")
 
 
 @contract("mir_eval.chord.sevenths_inv", props="C11 C14")
@@ -283,7 +283,7 @@ def sevenths_inv(reference_labels: Lst(ObjT), estimated_labels: Lst(ObjT)) -> Ar
                     and all_encodable(reference_labels) and all_encodable(estimated_labels)), props="C14")
     ensures(length(result) == length(reference_labels), label='length', props="C11")
     ensures(forall(0, length(result), lambda i: result[i] == rule_sevenths_inv(ENC(reference_labels[i]), ENC(estimated_labels[i]))),
-            label='rule', props="C11")
+            label='rule', props="C11 C09 C02")
 
 
 @contract("mir_eval.chord.mirex", props="C11 C14")
@@ -294,7 +294,7 @@ def mirex(reference_labels: Lst(ObjT), estimated_labels: Lst(ObjT)) -> Arr(Real,
                     and all_encodable(reference_labels) and all_encodable(estimated_labels)), props="C14")
     ensures(length(result) == length(reference_labels), label='length', props="C11")
     ensures(forall(0, length(result), lambda i: result[i] == rule_mirex(ENC(reference_labels[i]), ENC(estimated_labels[i]))),
-            label='rule', props="C11")
+            label='rule', props="C11 C09 C02")
 
 
 
